@@ -27,7 +27,6 @@ package store
 import (
 	"bytes"
 	"fmt"
-	"sort"
 	"strings"
 	"testing"
 	"time"
@@ -46,15 +45,24 @@ const (
 )
 
 // pParams: ledger channels of participants 0 and 1, in ascending order of their ids (= the
-// order of their keys in the channel table and in the peer table): k1 < k2 < k3 < k4.
+// order of their keys in the channel table and in the peer table): k1 < k2 < k3 < k4. The
+// nonces are found by the deterministic search of c11_test.go so that the ids reach both ends
+// of the key space: k1's id begins with the byte 0x00, k3's and k4's with 0xff (so the last
+// channel of the 3 channel and of the 4 channel family sits at the upper end of every range
+// that is bounded by id).
 var pParams = func() (p [pMaxChan]*channel.Params) {
-	for i := range p {
-		p[i] = mkParams(2, channel.NoApp(), int64(201+i), true)
+	first := func(b byte) func(id channel.ID) bool { return func(id channel.ID) bool { return id[0] == b } }
+	p[0] = searchParams(2, true, 3000, first(0x00))
+	p[1] = searchParams(2, true, 4000, func(id channel.ID) bool { return id[0] != 0x00 && id[0] != 0xff })
+	p[2] = searchParams(2, true, 5000, first(0xff))
+	k3 := p[2].ID()
+	p[3] = searchParams(2, true, 6000, func(id channel.ID) bool { return id[0] == 0xff && bytes.Compare(k3[:], id[:]) < 0 })
+	for i := 1; i < pMaxChan; i++ {
+		a, b := p[i-1].ID(), p[i].ID()
+		if bytes.Compare(a[:], b[:]) >= 0 {
+			panic("engine error: channel ids of the several-channels family are not ascending")
+		}
 	}
-	sort.Slice(p[:], func(a, b int) bool {
-		x, y := p[a].ID(), p[b].ID()
-		return bytes.Compare(x[:], y[:]) < 0
-	})
 	return p
 }()
 
